@@ -165,7 +165,7 @@ def _assigned_names(stmts):
 
 
 class Explorer:
-    def __init__(self, func, max_paths=512, scope=None, fold_tests=True, inline=None, env=None, depth=0):
+    def __init__(self, func, max_paths=512, scope=None, fold_tests=True, inline=None, env=None, depth=0, pure=()):
         """inline: callable(call node, func) -> model.Func or None; calls for which it
         returns a Func are summarised in place (statement-level, depth <= 2)."""
         self.func = func
@@ -176,6 +176,7 @@ class Explorer:
         self.inline = inline
         self.init_env = env or {}
         self.depth = depth
+        self.pure = set(pure)      # extra dotted callees whose results may be substituted (value-like)
         # local single-expression helper functions are inlined at expression level
         self.local_fns = {}
         for st in func.node.body:
@@ -229,7 +230,7 @@ class Explorer:
                     env[name] = resolve_consts(kw[0], self.scope)
                 elif name in dflt:
                     env[name] = resolve_consts(dflt[name], Scope.of(callee))
-        sub = Explorer(callee, self.max_paths, Scope.of(callee), self.fold_tests, self.inline, env, self.depth + 1)
+        sub = Explorer(callee, self.max_paths, Scope.of(callee), self.fold_tests, self.inline, env, self.depth + 1, self.pure)
         outs = []
         for q in sub.run():
             if q.outcome[0] == 'raise':
@@ -272,7 +273,7 @@ class Explorer:
     def _bind(self, target, value, p, stmt):
         if isinstance(target, ast.Name):
             p.defs[target.id] = value
-            if _impure(value):
+            if _impure(value, self.pure):
                 # keep the variable opaque: results of non-pure calls are objects, not values
                 p.env.pop(target.id, None)
                 for k in [k for k in p.env if k.startswith(target.id + '[') or k.startswith(target.id + '.')]:
@@ -468,7 +469,7 @@ PURE_CALLS = {
 }
 
 
-def _impure(value):
+def _impure(value, extra=()):
     for n in ast.walk(value):
         if isinstance(n, ast.Call):
             d = None
@@ -480,7 +481,7 @@ def _impure(value):
             if isinstance(f, ast.Name):
                 parts.append(f.id)
                 d = '.'.join(reversed(parts))
-            if d not in PURE_CALLS and not (isinstance(n.func, ast.Attribute) and n.func.attr in ('format', 'encode', 'decode', 'split', 'strip', 'lower', 'upper', 'get')):
+            if d not in PURE_CALLS and d not in extra and not (isinstance(n.func, ast.Attribute) and n.func.attr in ('format', 'encode', 'decode', 'split', 'strip', 'lower', 'upper', 'get')):
                 return True
     return False
 
